@@ -46,7 +46,7 @@ claim('C16', 'other',
       '__hash__ fields are a subset of __eq__ fields (one known finding: Path._closed). Semantically, for symbolic paths/segments: after every '
       'primitive mutation (all index shapes, path sizes 3/1/0) no length table of the old segment list survives and the cached end points are '
       'the new ones; the methods that rebuild the table are discovered by interpretation and their tolerance guards judged; point/T2t/t2T/length/'
-      'start/end after each mutation equal those of a fresh path; bpoints/poly/point/derivative/bbox/hash of a segment after reassigning a '
+      'start/end and every whole-path answer that may be memoised (isclosed, iscontinuous, bbox) after each mutation equal those of a fresh path; bpoints/poly/point/derivative/bbox/hash of a segment after reassigning a '
       'control point equal those of a fresh segment (whatever memo exists, however keyed). Numeric equality of recomputed values '
       'is not re-derived (determinism trusted).',
       TRUST + ' MutableSequence mixins reduce to insert/__setitem__/__delitem__ (collections.abc contract). Implicit exceptions '
@@ -56,8 +56,9 @@ claim('C19', 'other',
       'abstract interpretation over a polynomial normal form per degree (identities) + AST/CFG provenance rules (root filters, index domains) '
       "+ exhaustive label exploration of rational_limit's case table",
       'Identity clauses are decided for all control points per degree (0..5 quick, 0..8 thorough): n_choose_k, bernstein, bezier_point, '
-      'bezier2polynomial (all output forms), polynomial2bezier inverse, split_bezier and halve_bezier under the documented parameter maps. '
-      "For the root helpers only necessary conditions are decided: polyroots' real filter/condition filter/polyroots01 arguments, "
+      'bezier2polynomial (all output forms), polynomial2bezier inverse, split_bezier and halve_bezier under the documented parameter maps; '
+      'the same answers when several degrees are asked in a non-monotone order within one run (tables shared between calls). '
+      "For the root helpers only necessary conditions are decided: polyroots' real filter/condition filter/polyroots01 arguments (a symbolic coefficient list reaches the root finder with every coefficient), "
       'the index-domain rule (an index selects from the very collection it enumerated, not re-bound in between), and the three-case '
       "L'Hopital table of rational_limit with every division guarded. What numpy.roots returns, isclose tolerances and the float zero "
       'tests of rational_limit are not decided.',
@@ -93,8 +94,10 @@ claim('C04', 'other',
       '__init__; on every path of _parameterize, for all four flag combinations: x1\', radius_check, scaling by sqrt(radius_check) iff '
       '> 1 (ValueError iff autoscale is off), radicand, a radical that is guarded against radicand ~ 0, the centre with its sign rule, '
       'theta and raw delta case tables and the +-360 adjustment (spec table under the stated feasibility lemma); cubic/quadratic '
-      'approximations chained, end-point exact, joints on the arc, control points on the tangents. Not decided: point(0)=start and '
-      'point(1)=end as numeric statements (acos/sqrt/clip), monotonicity and minimality up to rounding.',
+      'approximations chained, end-point exact, joints on the arc, control points on the tangents; after construction start, end, rotation, phi, '
+      'rot_matrix and the flags are the values the arguments define; 128 concrete quarter / three-quarter circles between axis points (all flags, '
+      'rotations 0/90/180/-90, two centres) get the exact centre, theta, delta, end points and intermediate axis points through the real constructor. '
+      'Not decided: point(0)=start and point(1)=end for general arcs as numeric statements (acos/sqrt/clip), monotonicity and minimality up to rounding.',
       TRUST + ' Relations used: cos^2+sin^2=1, sqrt(u)^2=u; clip() is treated as an uninterpreted function in the same places on both sides. '
       'Feasibility lemma (F.6.5 geometry): raw delta > 0 iff sweep != large_arc.', 'DESIGN.md section 3 C04')
 
@@ -154,7 +157,8 @@ claim('C07', 'other',
       'counter is incremented on every iteration path and falling out of the loop raises; when the computed midpoint equals a bound '
       '(bracket cannot shrink) every path of the iteration leaves the loop (F05 was found this way); the Path branch recurses on '
       '(segment, s - consumed length) with all four tolerances and maps back through t2T by index; the five ilength methods forward every '
-      'parameter. Not decided: inverse accuracy and monotonicity (numeric).',
+      'parameter, and on concrete straight Beziers with non-constant speed (exact arc length known) a parameter computed without the inverter '
+      'satisfies length(0,t) == s. Not decided: inverse accuracy and monotonicity (numeric).',
       TRUST + ' Float rounding is modelled only as: the midpoint may equal either bound.', 'DESIGN.md section 3 C07')
 
 claim('C08', 'other',
@@ -203,7 +207,8 @@ claim('C13', 'other',
       'Decides: bezier_radialrange (quadratic, cubic) takes the roots of d/dt|B(t)-z|^2, evaluates (distance, t) at {0,1} and the roots and '
       'selects by distance; Line.radialrange\'s closed-form t is the critical point and its decision table is clamp / farther end on all '
       'four paths; Path.radialrange is a correct arg-min/arg-max fold (with index of the same iteration) on all 54 weak orderings of three '
-      'segments including ties and zero distances; closest/farthest_point_in_path pick slots 0/1. Not decided: completeness of the root '
+      'segments including ties and zero distances; closest/farthest_point_in_path pick slots 0/1 and, whatever route they take, return the '
+      'global extremum with its segment index on concrete rational three-line paths in all six orders and four rigid images. Not decided: completeness of the root '
       'finder (C19).', TRUST, 'DESIGN.md section 3 C13')
 
 claim('C14', 'other',
@@ -220,7 +225,7 @@ claim('C15', 'other',
       'abstract interpretation on stub segments (derivative/poly as symbols), normal-form identities for tangent and curvature formulas, '
       'information-flow (parity) test of the singular fallback by evaluating it on d and -d',
       'Decides: normal == -1j*unit_tangent in all five classes (same parameter); regular-point tangents are derivative(t)/|derivative(t)| of '
-      'the first derivative; the singular fallback is sqrt(rational_limit(d^2, |d|^2, t)) with d = poly().deriv() - and cannot see the sign of '
+      'the first derivative (also on real quadratic/cubic segments with symbolic control points at t = 0, 1, 1/2 and symbolic t, on every label path); the singular fallback is sqrt(rational_limit(d^2, |d|^2, t)) with d = poly().deriv() - and cannot see the sign of '
       'd (known finding F11); segment_curvature (regular and singular branch) and Path.curvature implement '
       '|x\'y\'\'-y\'x\'\'|/(x\'^2+y\'^2)^(3/2); Path.derivative rescales by length**n; Line.curvature == 0; Arc.derivative n=1,2. '
       'Not decided: limits as numeric statements; invariance under transforms follows from C10 plus these formulas and is not re-derived.',
@@ -234,7 +239,7 @@ claim('C17', 'other',
       'compose left to right under blank/comma/newline separators; in Document.flattened_paths and SaxDocument.sax_parse the matrix applied '
       'to each element of a model tree (three levels of groups; siblings with and without an own transform in both orders) is (outermost '
       'ancestor ... own transform) in that order, and the transformed path is what is returned; flattened_paths_from_group returns exactly the '
-      'leaves below the requested group (all levels when recursive) in the root frame; rect (plain, rounded, rx only), circle, ellipse, polyline, polygon and line convert to d-strings that the interpreted '
+      'leaves below the requested group (all levels when recursive) in the root frame, also through Document.paths / Document.paths_from_group; elements with equal path data and no transform keep their own path objects; rect (plain, rounded, rx only), circle, ellipse, polyline, polygon and line convert to d-strings that the interpreted '
       'parser turns into exactly the section 9 geometry for all attribute values; converters touch their element only through .get(); no result of a '
       'pure curve function is discarded; the three readers register the same seven tags with the same converters; every CSS number is in '
       'the point-list lexer\'s language. Not decided: XML parsing itself, filters, numerics of transform() on arcs.',
@@ -247,7 +252,7 @@ claim('C18', 'other',
       'whether the reader\'s name test matches what the writer serialises (one known finding: Document.save -> svg2paths, F22; F21 was found '
       'and repaired); elements created by add_path/add_group are in the namespace the Document searches; attribute pass-through in disvg '
       '(per-path and svg-level), add_path (d overrides, caller dict untouched), svg2paths (all attributes) and SaxDocument (own attribute > '
-      'own style > inherited); order preservation; generate_dom writes the matrix in the permutation the matrix(...) reader inverts. '
+      'own style > inherited); every element keeps its own path object and tag when several elements carry equal path data; order preservation; generate_dom writes the matrix in the permutation the matrix(...) reader inverts. '
       'Not decided: svgwrite / ElementTree / minidom internals beyond the API model, d-string equality (C01).',
       TRUST + ' API model rows listed in the evidence assumptions.', 'DESIGN.md section 3 C18')
 
